@@ -137,6 +137,10 @@ func w1GenProp(r *rand.Rand, c *simrt.Case, nclients, maxOps int, prop, tier str
 			c.Faults = append(c.Faults, simrt.Fault{Kind: "crash", Key: "b0", Nth: 10 + r.IntN(300)})
 		}
 		w1S3WriteFaults(r, c, r.IntN(3))
+		// transient read failures: some land on the listing / footer / index reads of a reopening broker
+		for i := 0; i < r.IntN(3); i++ {
+			c.Faults = append(c.Faults, simrt.Fault{Kind: "s3.fail_before", Op: pick(r, "s3.get.segment", "s3.get.segment", "s3.list", "s3.get.index"), Nth: r.IntN(14)})
+		}
 		c.Program = append(c.Program, simrt.Op{Actor: 100, Kind: "crash"}, simrt.Op{Actor: 100, Kind: "verify"})
 	case "C41":
 		// producers, then (optionally after a restart = cold cache) several
